@@ -27,6 +27,72 @@ def set_calls(body, name):
     return [cs for cs in T.calls(body, name=name) if cs.f and cs.f["path"] == SET + "::" + name]
 
 
+def lifecycle_set_follows(ck, C):
+    f = ck.facts
+    # ---- clause 2: the set follows the registration state on every exit ---------------------------
+    dreg = ck.body(C, "<RefCell<DispatcherInner> as EventDispatcher>::register")
+    A = set_calls(dreg, "register")
+    R = T.calls(dreg, name="register", trait="EventSource", self_kind=("param", "alias"))
+    ck.floor(C, "DispatcherInner::register: set-add and source.register sites", len(A) + len(R), 2)
+    for r in R:
+        ok_e, err_e, direct = T.result_split(dreg, r.bb)
+        starts = [t for _, t in err_e] + ([r.to] if direct else [])
+        removed = [e for e in ok_e]
+        before = [a for a in A if r.bb in dreg.reachable([a.to] if a.to is not None else [])]
+        if not before:
+            ck.ok(C, "T2-all-exits", dreg, "failed-register-leaves-no-entry", "the token is added only after the source registered successfully (no add precedes the fallible call)", site=dreg.where(r.bb))
+            continue
+        U = [u.bb for u in set_calls(dreg, "unregister")]
+        bad = T.t2_all_exits(dreg, starts, U, removed_edges=removed) if starts else None
+        ck.verdict(bad is None, C, "T2-all-exits", dreg, "failed-register-leaves-no-entry", "every error exit after the add removes the token again", "the token is added to the lifecycle set before the source's register, and an error return leaves it there: the caller empties the slot and the next dispatch hits unreachable!()", site=dreg.where(r.bb), path=path_descr(dreg, bad) if bad else None)
+    # adds after success must be on the success edge only (T3, edge specific)
+    dunreg = ck.body(C, "<RefCell<DispatcherInner> as EventDispatcher>::unregister")
+    tb = T.calls(dunreg, name=("try_borrow_mut", "borrow_mut"), path="RefCell")
+    U = [u.bb for u in set_calls(dunreg, "unregister")]
+    if not tb or not U:
+        ck.anchor_missing(C, "T2-all-exits", "DispatcherInner::unregister: borrow and set removal")
+    else:
+        for t in tb:
+            ok_e, err_e, _ = T.result_split(dunreg, t.bb)
+            starts = [x for _, x in ok_e] if ok_e else [t.to]
+            flag_false = []
+            for sw in T.switches_on_expr(dunreg, lambda e: e[0] == "place" and "needs_additional_lifecycle_events" in e[1]):
+                flag_false += T.edges_of_value(dunreg, sw, False)
+            exempt = [x for _, x in flag_false]
+            bad = T.t2_all_exits(dunreg, starts, U + exempt)
+            ck.verdict(bad is None, C, "T2-all-exits", dunreg, "unregister-always-drops-entry", "every path on which the dispatcher could be borrowed removes the token from the set (unless the source never opted in), including the path on which the source's own unregister fails", "a path returns from unregister with the token still in the lifecycle set (the source's unregister failed before the set was updated): the callers empty the slot regardless and the next dispatch hits unreachable!()", site=dunreg.where(t.bb), path=path_descr(dunreg, bad) if bad else None)
+    sunreg = ck.body(C, "AdditionalLifecycleEventsSet::unregister")
+    rets = T.calls(sunreg, name="retain")
+    if rets:
+        for cs in rets:
+            cbs = T.closure_bodies_passed(sunreg, cs)
+            ok = False
+            for cb in cbs:
+                for c2 in T.calls(cb, name=("ne", "eq")):
+                    # the closure's return value is ne(..) or !eq(..)
+                    e = None
+                    for i, j, st in cb.statements():
+                        if st["pl"]["l"] == 0 and st["s"] == "assign":
+                            e = cb.expr(st["rv"]["o"]) if st["rv"]["r"] == "use" else (("not", cb.expr(st["rv"]["a"])) if st["rv"]["r"] == "un" else None)
+                    if c2.dest["l"] == 0:
+                        e = ("call", c2.bb)
+                    neg = False
+                    while e and e[0] == "not":
+                        neg = not neg
+                        e = e[1]
+                    if e == ("call", c2.bb) and ((c2.name == "ne") != neg):
+                        if any(T.path_has(cb, a, ".token") for a in c2.args) and any(T.resolves_to_arg(cb, a, 2) for a in c2.args):
+                            ok = True
+            ck.verdict(ok, C, "T6-provenance", sunreg, "retain-keeps-iff-different", "removal keeps exactly the entries different from the token", "the retain predicate of the lifecycle set is not `entry != token`", site=sunreg.where(cs.bb))
+    else:
+        rm = T.calls(sunreg, name=("remove", "swap_remove", "take"))
+        if not rm:
+            ck.anchor_missing(C, "T6-provenance", "removal from the lifecycle set")
+        else:
+            ck.undecided(C, "T6-provenance", sunreg, "removal-idiom", "removal is not a retain(); shape not recognised, counted as undecided")
+
+
+
 def run(ck):
     f = ck.facts
     # ---- clause 1: no duplicates -----------------------------------------------------------------
@@ -60,67 +126,7 @@ def run(ck):
                 ok, why = True, "the add is preceded on every path by removal of the same token"
             ck.verdict(ok, "1", "T4-guarded-by", reg, "add-is-deduplicated", why, "the token is appended unconditionally: every (re)registration of a source adds another entry, so its hooks run more than once per dispatch", site=reg.where(cs.bb))
 
-    # ---- clause 2: the set follows the registration state on every exit ---------------------------
-    dreg = ck.body("2", "<RefCell<DispatcherInner> as EventDispatcher>::register")
-    A = set_calls(dreg, "register")
-    R = T.calls(dreg, name="register", trait="EventSource", self_kind=("param", "alias"))
-    ck.floor("2", "DispatcherInner::register: set-add and source.register sites", len(A) + len(R), 2)
-    for r in R:
-        ok_e, err_e, direct = T.result_split(dreg, r.bb)
-        starts = [t for _, t in err_e] + ([r.to] if direct else [])
-        removed = [e for e in ok_e]
-        before = [a for a in A if r.bb in dreg.reachable([a.to] if a.to is not None else [])]
-        if not before:
-            ck.ok("2", "T2-all-exits", dreg, "failed-register-leaves-no-entry", "the token is added only after the source registered successfully (no add precedes the fallible call)", site=dreg.where(r.bb))
-            continue
-        U = [u.bb for u in set_calls(dreg, "unregister")]
-        bad = T.t2_all_exits(dreg, starts, U, removed_edges=removed) if starts else None
-        ck.verdict(bad is None, "2", "T2-all-exits", dreg, "failed-register-leaves-no-entry", "every error exit after the add removes the token again", "the token is added to the lifecycle set before the source's register, and an error return leaves it there: the caller empties the slot and the next dispatch hits unreachable!()", site=dreg.where(r.bb), path=path_descr(dreg, bad) if bad else None)
-    # adds after success must be on the success edge only (T3, edge specific)
-    dunreg = ck.body("2", "<RefCell<DispatcherInner> as EventDispatcher>::unregister")
-    tb = T.calls(dunreg, name=("try_borrow_mut", "borrow_mut"), path="RefCell")
-    U = [u.bb for u in set_calls(dunreg, "unregister")]
-    if not tb or not U:
-        ck.anchor_missing("2", "T2-all-exits", "DispatcherInner::unregister: borrow and set removal")
-    else:
-        for t in tb:
-            ok_e, err_e, _ = T.result_split(dunreg, t.bb)
-            starts = [x for _, x in ok_e] if ok_e else [t.to]
-            flag_false = []
-            for sw in T.switches_on_expr(dunreg, lambda e: e[0] == "place" and "needs_additional_lifecycle_events" in e[1]):
-                flag_false += T.edges_of_value(dunreg, sw, False)
-            exempt = [x for _, x in flag_false]
-            bad = T.t2_all_exits(dunreg, starts, U + exempt)
-            ck.verdict(bad is None, "2", "T2-all-exits", dunreg, "unregister-always-drops-entry", "every path on which the dispatcher could be borrowed removes the token from the set (unless the source never opted in), including the path on which the source's own unregister fails", "a path returns from unregister with the token still in the lifecycle set (the source's unregister failed before the set was updated): the callers empty the slot regardless and the next dispatch hits unreachable!()", site=dunreg.where(t.bb), path=path_descr(dunreg, bad) if bad else None)
-    sunreg = ck.body("2", "AdditionalLifecycleEventsSet::unregister")
-    rets = T.calls(sunreg, name="retain")
-    if rets:
-        for cs in rets:
-            cbs = T.closure_bodies_passed(sunreg, cs)
-            ok = False
-            for cb in cbs:
-                for c2 in T.calls(cb, name=("ne", "eq")):
-                    # the closure's return value is ne(..) or !eq(..)
-                    e = None
-                    for i, j, st in cb.statements():
-                        if st["pl"]["l"] == 0 and st["s"] == "assign":
-                            e = cb.expr(st["rv"]["o"]) if st["rv"]["r"] == "use" else (("not", cb.expr(st["rv"]["a"])) if st["rv"]["r"] == "un" else None)
-                    if c2.dest["l"] == 0:
-                        e = ("call", c2.bb)
-                    neg = False
-                    while e and e[0] == "not":
-                        neg = not neg
-                        e = e[1]
-                    if e == ("call", c2.bb) and ((c2.name == "ne") != neg):
-                        if any(T.path_has(cb, a, ".token") for a in c2.args) and any(T.resolves_to_arg(cb, a, 2) for a in c2.args):
-                            ok = True
-            ck.verdict(ok, "2", "T6-provenance", sunreg, "retain-keeps-iff-different", "removal keeps exactly the entries different from the token", "the retain predicate of the lifecycle set is not `entry != token`", site=sunreg.where(cs.bb))
-    else:
-        rm = T.calls(sunreg, name=("remove", "swap_remove", "take"))
-        if not rm:
-            ck.anchor_missing("2", "T6-provenance", "removal from the lifecycle set")
-        else:
-            ck.undecided("2", "T6-provenance", sunreg, "removal-idiom", "removal is not a retain(); shape not recognised, counted as undecided")
+    lifecycle_set_follows(ck, "2")
 
     # ---- clause 3: protocol order --------------------------------------------------------------
     dl = DispatchLoop(ck, "3")
